@@ -20,6 +20,13 @@ func VP_C16_At() {
 	for x := 0; x < n; x++ {
 		starts[x] = vpInt("start" + vpDigit(x))
 		ends[x] = vpInt("end" + vpDigit(x))
+		if sm := vpCaseOr("small", 0); sm > 0 {
+			// deeper overlap at an affordable cost: starts in [0, small],
+			// one common end behind them (every order of the starts, any
+			// number of intervals active at once)
+			vpAssume(0 <= starts[x] && starts[x] <= sm)
+			ends[x] = sm + 1 + vpCaseOr("endGap", 0)*x
+		}
 		if vpCase("exclDegenerate") == 1 {
 			// known-finding class D2: empty or inverted intervals
 			vpAssume(starts[x] < ends[x])
@@ -87,6 +94,13 @@ func VP_C16_ReadOnly() {
 	for x := 0; x < n; x++ {
 		starts[x] = vpInt("start" + vpDigit(x))
 		ends[x] = vpInt("end" + vpDigit(x))
+		if sm := vpCaseOr("small", 0); sm > 0 {
+			// deeper overlap at an affordable cost: starts in [0, small],
+			// one common end behind them (every order of the starts, any
+			// number of intervals active at once)
+			vpAssume(0 <= starts[x] && starts[x] <= sm)
+			ends[x] = sm + 1 + vpCaseOr("endGap", 0)*x
+		}
 	}
 	idx := NewIndex(starts, ends)
 	q, q2 := vpInt("q"), vpInt("q2")
